@@ -42,6 +42,12 @@ def IsArgsort [LE β] (order : List Nat) (preds : List β) : Prop :=
 
 /-! ### best-batch: parent + shocks, clip, snap -/
 
+/-- parent of one proposed row in `BestBatchSampler.sample_batch`:
+`existing_points[argsort(existing_losses)][:batch_size][j]`, `j` drawn from `integers(0, batch_size)` -/
+def bestBatchParent (order : List Nat) (hist : List (List α)) (bs j : Nat) : Option (List α) :=
+  (selectLowest order hist bs)[j]?
+
+
 /-- one shock: coordinate, size (number of precision steps), sign (`true` = +) -/
 structure Shock where
   idx : Nat
